@@ -39,8 +39,10 @@ protocol and evidence are as designed in section 2. Deviations, all in the direc
 
 ADDITIONS = """### 10.5 What the seeded rounds changed in the checks
 
-Sixty changes from three independent rounds (fresh sub-agents, property text only; the second and third round were told which *kinds* of change earlier rounds
-had produced and asked for different ones) were confirmed and run. 45 were detected by the quick tier as it stood, two more only by the thorough tier, 13 not at all.
+Eighty changes from four independent rounds (fresh sub-agents, property text only; each later round was told which *kinds* of change the earlier rounds had produced
+and asked for different ones) were confirmed and run. Rounds 1-3 (60 changes): 45 were detected by the quick tier as it stood, two more only by the thorough tier, 13 not
+at all. Round 4 (20 changes; column "before" in `seeded/*-agent4/meta.json: detected_before_strengthening`, measured by running the previous commit of `/verif` against each
+changed tree): 11 detected by the quick tier as it stood, one more only by the thorough tier (C02), 8 not at all (C01, C03, C04, C06, C07, C09, C10, C18).
 Every miss pointed at a *class* of input the generator did not produce, and the checks were extended for the class, not for the patch:
 
 * **State carried between calls.** C01, C02 (`pre`: the same / other expressions evaluated first by fresh engines - module-level caches), C06 (`hist`: the final
@@ -58,9 +60,20 @@ Every miss pointed at a *class* of input the generator did not produce, and the 
   from 16 types (TimeoutError, TypeError, StopIteration, ...), not one fixed type. C11: JSON values of the wrong type for their field (bool for str, number for bool, ...)
   plus an enumerated single-field table. C14: operations retried under the same id (incl. equal priorities) and a global invariant "no ended operation owns a resource"
   after every step, kill and maintenance call. C15: one operation blocked on two different owners. C17: system histories install suppression rules. C19: stage names may repeat.
+* **Round 4 (helpers outside the anchored function, aliasing, numeric and time boundaries, cleanup paths, narrowed locks, string handling).**
+  C01: *text-scan bombs* - an opener (quote, bracket, call prefix) followed by a long pump of one or two characters, never closed - join the sandboxed bomb grammar
+  (40 quick / 990 thorough) and, with shorter pumps, the generated raw texts; and the runner gained a **per-case CPU guard** (SIGVTALRM; 40 s for C01 where it is a
+  `resource:cpu-bound-exceeded:in-process` finding, 300 s elsewhere where it is an immediate exit 2 naming the case) so a runaway evaluation in-process is a finding with a
+  replay file instead of a wedged worker. C02: string-literal contents are drawn from arbitrary Unicode (operator look-alikes, typographic quotes, full-width digits,
+  zero-width characters). C03: bodies are counted *per registration* and a two-thread race (request vs. re-registration of the same name) is enumerated over every single
+  preemption point and generated schedules, through the deterministic scheduler already used by C05/C13 ("all interleavings of registration and calls"). C04: *burst*
+  histories of 1001-2050 spends cross the 1000-entry audit-log bound (code the 30-step histories never reached). C06: voters whose PERMIT reply cannot be converted into a
+  ballot (confidence "high" / None) are failed voters. C07: unknown verdict *words* (empty, fragments and extensions of PERMIT / EXECUTE), not just the literal "UNKNOWN".
+  C09: clock gaps from 0.25 s to 40 days and limits from 30 s to 25 h (a timedelta has days). C10: signature pools contain *case twins* (two patterns equal up to letter
+  case with different levels, learnt / forgotten separately). C18: the provider's text replies are generated (blank, whitespace-only, error-looking).
 * **One oracle bug found on the way** (no registered run was affected): C02 compared complex NaN results with `==`; now component-wise with NaN == NaN.
 
-After these changes all sixty seeded changes are detected by the quick tier (table above; `python3 tools/run_mutants.py --seeded` re-runs them).
+After these changes all eighty seeded changes are detected by the quick tier (table above; `python3 tools/run_mutants.py --seeded` re-runs them).
 """
 
 
